@@ -1,5 +1,6 @@
 import Pm.Dev2Login2
 import Pm.ToBufProof
+import Pm.LsdListTop
 /-! # C10 — one conversation at a time per device, and login comes first
 
 "On each device connection powerman runs scripts strictly one after another in request order: it never sends bytes
@@ -13,7 +14,9 @@ real functions on every run of the check.  Every theorem is for all queues, scri
 regex answers (`Oracle`); no bounds.
 
 Sections: 1 login first (the invariant, everywhere) ▸ 2 FIFO completions ▸ 3 only the head of the queue sends ▸
-4 what is in the output buffer (telnet replies included).
+4 what is in the output buffer (telnet replies included) ▸ 5 the queue itself: `liblsd/list.c` at node level (nodes,
+`head` / `tail` pointer-to-pointer, registered iterators patched on insertion and removal, the free list) refines a plain
+list with cursors.
 
 Vocabulary (all defined in the helper modules, none changes the model):
 * `LoginHead d` — if `d` is CONNECTED (`conn = 2`) and not logged in, the head of `d.acts` is the login action (`com = 0`).
@@ -403,5 +406,308 @@ example : (postPoll Ex.fresh Ex.envTelnet ⟨[]⟩).1.dev.toBuf = [255, 251, 3, 
 example : (postPoll Ex.fresh Ex.env0 ⟨[]⟩).1.dev.toBuf = [108] ∧
     (postPoll (postPoll Ex.fresh Ex.env0 ⟨[]⟩).1.dev Ex.envLate ⟨[]⟩).1.dev.toBuf = [] ∧
     (postPoll (postPoll Ex.fresh Ex.env0 ⟨[]⟩).1.dev Ex.envLate ⟨[]⟩).1.dev.retryCount = 2 := by decide +kernel
+
+/-! ## 5. the queue itself: `liblsd/list.c` at node level refines a plain list
+
+Sections 1–4 carry every queue of the daemon (`dev->acts`, `act->exec`, the client list, the device list, plug lists,
+statement lists, interpretation lists) as a plain Lean `List`.  In C they are liblsd `List`s: singly linked nodes taken
+from a per-process free list, `head`, `tail` = address of the `next` field that holds the final `NULL`, `count`, and a chain of
+registered iterators (`pos`, `prev` = address of a `next` field) that `list_node_create` / `list_node_destroy` patch so that
+they survive insertions and removals made while they are alive — which `device.c` / `client.c` do.
+
+`Pm/LsdList.lean` mirrors `list.c` function by function *with the nodes as memory cells with addresses* (compared with the real
+code op by op by `lib/listlayer.py` / `harness/u_list.c`, complete state after every call).  `valid` is the representation
+invariant (an executable check; it implies the one structural assertion of `list.c`,
+`(i->pos == *i->prev) || (i->pos == (*i->prev)->next)`, for every iterator); `contents` reads the items off the chain from
+`head`.  Every function of the model returns `none` where the C code would die (assertion, `NULL` / wild dereference, a loop
+that does not end).  The theorems below hold for **every** valid state — any length, any node addresses, any number of
+iterators anywhere — and every argument.
+
+The iterators are described by the *list with cursors* `Abs` (`Pm/LsdListAbs.lean`): the items, and per iterator a cursor
+`(j, g)` — it stands at gap `j` of the list; `g`: the item after the gap is the one it returned last (`list_remove` takes
+it) and the next to return is the one after that.  `absOf l` is the list with cursors of a node-level state (the cursor is the
+place the harness prints).  `Abs.ahead a k` = the items iterator `k` has still to return, `Abs.removable a k` = what
+`list_remove` would take.  Not modelled: threads, `malloc` failure, callbacks that modify the list they are called from. -/
+
+section list
+open Pm.LsdList
+
+/-- the list `1 2 3 4` with two iterators: handle 0 has returned `1` and `2`, handle 1 has returned `1` -/
+def exList : LList Nat :=
+  match LsdList.run (LsdList.create { cells := #[], free := [] } true)
+      [.append 1, .append 2, .append 3, .append 4, .itCreate 0, .next 0, .next 0, .itCreate 1, .next 1] with
+  | some (_, l) => l
+  | none => LsdList.create { cells := #[], free := [] } true
+
+example : LsdList.valid exList = true ∧ contents exList = [1, 2, 3, 4] ∧ (absOf exList).curs = [(1, (0, true)), (0, (1, true))] ∧
+    (absOf exList).ahead 0 = [3, 4] ∧ (absOf exList).ahead 1 = [2, 3, 4] ∧ (absOf exList).removable 0 = some 2 := by
+  decide +kernel
+
+/-- `list_create` on a consistent node memory (for instance the empty one, or the one `list_destroy` leaves behind) gives a
+    valid empty list without iterators; `list_destroy` of a valid list calls the deletion function (when there is one) on
+    exactly the items, in order, and leaves a consistent node memory. -/
+theorem C10_list_create_destroy (hp : Heap α) (fdel : Bool) (ho : HeapOk hp) :
+    LsdList.valid (LsdList.create hp fdel) = true ∧ contents (LsdList.create hp fdel) = [] ∧
+    (∀ l : LList α, LsdList.valid l = true →
+      ∃ hp', LsdList.destroy l = some (if l.fdel then contents l else [], hp') ∧ HeapOk hp') :=
+  ⟨(create_valid hp fdel ho).1, (create_valid hp fdel ho).2.1, fun _ h => destroy_valid h⟩
+
+example : HeapOk ({ cells := #[], free := [] } : Heap Nat) := heapOk_empty
+example : (LsdList.destroy exList).map (·.1) = some [1, 2, 3, 4] := by decide +kernel
+
+/-- `valid`, the executable check the driver evaluates, is exactly the representation invariant the proofs use:
+    there is a chain of distinct nodes from `head` to `NULL` carrying the items, `count` is its length, `tail` is the address of
+    the field holding the final `NULL`, the free cells are distinct, exist and are not on the chain, the iterator handles are
+    distinct and every iterator has a place on the chain. -/
+theorem C10_list_valid_iff (l : LList α) : LsdList.valid l = true ↔ ∃ ns items, Rep l ns items := valid_iff l
+
+/-- **The C code never dies, and it is a list.**  From any valid state, any sequence of calls of the whole API —
+    append / prepend / push / enqueue / pop / dequeue / peek / count / is_empty / find_first / delete_all / for_each / sort with
+    **any** pure callbacks (inconsistent comparison functions included), iterator create / reset / destroy / next / insert /
+    find / remove / delete on any number of iterators, interleaved in any way — in which iterator handles are used properly
+    (`okRun`: a handle is registered when used and not registered twice; this is the `magic` assertion of `list.c`): no
+    assertion fires, no `NULL` or wild pointer is dereferenced, every loop ends; the final state is valid (hence every
+    state on the way); and all answers and the final items and cursors are those of the list with cursors. -/
+theorem C10_list_run (l : LList α) (ops : List (Op α)) (h : LsdList.valid l = true) (hok : (absOf l).okRun ops) :
+    ∃ rs l', LsdList.run l ops = some (rs, l') ∧ LsdList.valid l' = true ∧ (absOf l).run ops = some (rs, absOf l') :=
+  run_valid h ops hok
+
+/-- conversely the model dies in a sequence of calls only where the list with cursors is undefined — and that is undefined
+    only by misuse of a handle (`Abs.apply_isSome`: a call is defined iff `okOp`) -/
+theorem C10_list_dies_only_on_handle_misuse (l : LList α) (ops : List (Op α)) (h : LsdList.valid l = true) :
+    (LsdList.run l ops = none ↔ (absOf l).run ops = none) ∧ ∀ (a : Abs α) (op : Op α), (a.apply op).isSome = a.okOp op :=
+  ⟨run_none_iff h ops, Abs.apply_isSome⟩
+
+example : ((LsdList.run exList [.remove 1, .append 9, .insert 0 7, .deleteAll (fun x => x % 2 == 1), .sort (fun x y => (y : Int) - x),
+    .next 0, .pop, .itDestroy 1, .next 0, .next 0]).map (·.1)) =
+    some [.item (some 1), .item (some 9), .item (some 7), .deleted 3 [7, 3, 9], .unit, .item (some 4), .item (some 4), .unit,
+      .item (some 2), .item none] := by decide +kernel
+
+/-- `list_append` / `list_enqueue` put the item at the end, `list_prepend` / `list_push` at the front. -/
+theorem C10_list_append_prepend (l : LList α) (x : α) (h : LsdList.valid l = true) :
+    (∃ l', LsdList.append l x = some l' ∧ LsdList.enqueue l x = some l' ∧ LsdList.valid l' = true ∧ contents l' = contents l ++ [x]) ∧
+    (∃ l', LsdList.prepend l x = some l' ∧ LsdList.push l x = some l' ∧ LsdList.valid l' = true ∧ contents l' = x :: contents l) := by
+  obtain ⟨l1, e1, h1, c1, _⟩ := append_valid h x
+  obtain ⟨l2, e2, h2, c2, _⟩ := prepend_valid h x
+  exact ⟨⟨l1, e1, e1, h1, c1⟩, ⟨l2, e2, e2, h2, c2⟩⟩
+
+/-- `list_pop` / `list_dequeue` take the first item (`NULL` on the empty list), `list_peek` shows it, `list_count` /
+    `list_is_empty` are the length. -/
+theorem C10_list_pop_peek_count (l : LList α) (h : LsdList.valid l = true) :
+    (∃ l', LsdList.pop l = some ((contents l).head?, l') ∧ LsdList.dequeue l = some ((contents l).head?, l') ∧
+      LsdList.valid l' = true ∧ contents l' = (contents l).tail) ∧
+    LsdList.peek l = some (contents l).head? ∧ countOf l = (contents l).length ∧ LsdList.isEmpty l = (contents l).isEmpty := by
+  obtain ⟨l1, e1, h1, c1, _⟩ := pop_valid h
+  exact ⟨⟨l1, e1, e1, h1, c1⟩, peek_valid h, (count_valid h).1, (count_valid h).2⟩
+
+/-- **The action queue is a FIFO** ("runs scripts strictly one after another in request order"): enqueue any items on any
+    valid list, then dequeue as many times as there are items: they come out in the order they were in / went in, and the
+    list is empty. -/
+theorem C10_list_fifo (l : LList α) (xs : List α) (h : LsdList.valid l = true) :
+    ∃ l', LsdList.run l (xs.map Op.enqueue ++ List.replicate (contents l ++ xs).length Op.dequeue) =
+        some (xs.map (fun x => Res.item (some x)) ++ (contents l ++ xs).map (fun x => Res.item (some x)), l') ∧
+      LsdList.valid l' = true ∧ contents l' = [] := by
+  obtain ⟨l1, e1, h1, c1⟩ := run_enqueues xs l h
+  obtain ⟨l2, e2, h2, c2⟩ := run_dequeues (contents l ++ xs).length l1 h1 (by rw [c1]; exact Nat.le_refl _)
+  refine ⟨l2, ?_, h2, by rw [c2, c1]; simp⟩
+  rw [run_append, e1]
+  simp only [e2, Option.map_some, c1, List.take_length]
+
+example : (LsdList.run exList ([5, 6].map Op.enqueue ++ List.replicate 6 Op.dequeue)).map (·.1) =
+    some ([5, 6].map (fun x => Res.item (some x)) ++ [1, 2, 3, 4, 5, 6].map (fun x => Res.item (some x))) := by decide +kernel
+
+/-- `list_find_first` returns the first item the callback accepts; `list_for_each` visits the items in order and returns
+    their number, or minus the position at which the callback returned a negative value. -/
+theorem C10_list_find_first_for_each (l : LList α) (f : α → Bool) (g : α → Int) (h : LsdList.valid l = true) :
+    findFirst l f = some ((contents l).find? f) ∧ forEach l g = some (forEachAbs g (contents l) 0) :=
+  ⟨findFirst_valid h f, forEach_valid h g⟩
+
+example : findFirst exList (fun x => x > 2) = some (some 3) ∧ forEach exList (fun x => if x == 3 then -1 else 0) = some (-3) := by
+  decide +kernel
+
+/-- **`list_delete_all`** removes exactly the items the callback accepts and keeps the others in order — also under live
+    iterators, which stay valid; it returns the number of removed items and calls the deletion function (when there is one)
+    on exactly these, in order. -/
+theorem C10_list_delete_all (l : LList α) (f : α → Bool) (h : LsdList.valid l = true) :
+    ∃ l', deleteAll l f = some ((contents l).countP f, if l.fdel then (contents l).filter f else [], l') ∧
+      LsdList.valid l' = true ∧ contents l' = (contents l).filter (fun x => !f x) :=
+  let ⟨l', e, hv, hc, _⟩ := deleteAll_valid h f; ⟨l', e, hv, hc⟩
+
+example : (deleteAll exList (fun x => x % 2 == 0)).map (fun r => (r.1, r.2.1, contents r.2.2)) = some (2, [2, 4], [1, 3]) ∧
+    (deleteAll exList (fun x => x % 2 == 0)).map (fun r => (absOf r.2.2).curs) = some [(1, (1, false)), (0, (1, false))] := by
+  decide +kernel
+
+/-- **`list_delete_all` under a live iterator**: afterwards the iterator has still to return exactly the surviving items it
+    had still to return, in order (none twice, none lost, no removed one). -/
+theorem C10_list_delete_all_under_iterators (l : LList α) (f : α → Bool) (k : Nat) (h : LsdList.valid l = true)
+    (hk : (iterOf l k).isSome) :
+    ∃ n dl l', deleteAll l f = some (n, dl, l') ∧ LsdList.valid l' = true ∧
+      (absOf l').ahead k = ((absOf l).ahead k).filter (fun x => !f x) :=
+  deleteAll_ahead_valid h f k hk
+
+example : (deleteAll exList (fun x => x % 2 == 1)).map (fun r => ((absOf r.2.2).ahead 0, (absOf r.2.2).ahead 1)) = some ([4], [2, 4]) := by
+  decide +kernel
+
+/-- **`list_sort`** — the in-place insertion sort on pointers — gives `sortList`, the insertion sort on a plain list, for
+    **every** pure comparison function; the result has exactly the items it was given; when the comparison is a total
+    preorder (`x ≥ y` implies `y ≤ x`, `≤` transitive) it is sorted; the state stays valid, and every iterator is reset (when
+    there are at least two items — with fewer, nothing happens at all, iterators included). -/
+theorem C10_list_sort (l : LList α) (cmp : α → α → Int) (h : LsdList.valid l = true) :
+    ∃ l', LsdList.sort l cmp = some l' ∧ LsdList.valid l' = true ∧ contents l' = sortList cmp (contents l) ∧
+      (contents l').Perm (contents l) ∧
+      ((∀ a b, 0 ≤ cmp a b → cmp b a ≤ 0) → (∀ a b c, cmp a b ≤ 0 → cmp b c ≤ 0 → cmp a c ≤ 0) → SortedBy cmp (contents l')) ∧
+      absOf l' = (absOf l).sort cmp := by
+  obtain ⟨l', e, hv, hc, ha⟩ := sort_valid h cmp
+  exact ⟨l', e, hv, hc, by rw [hc]; exact sortList_perm cmp _, fun h1 h2 => by rw [hc]; exact sortList_sorted cmp h1 h2 _, ha⟩
+
+/-- **`list_sort` is stable** ("Note: The sort algorithm is stable", `list.h`), for a sign-consistent transitive comparison:
+    every ascending subsequence of the list before — in particular any two items that compare equal — is a subsequence of the
+    list after. -/
+theorem C10_list_sort_stable (l : LList α) (cmp : α → α → Int) (h : LsdList.valid l = true)
+    (hsym : ∀ a b, cmp a b ≤ 0 ↔ 0 ≤ cmp b a) (htrans : ∀ a b c, cmp a b ≤ 0 → cmp b c ≤ 0 → cmp a c ≤ 0)
+    (sub : List α) (hsub : sub.Sublist (contents l)) (hasc : SortedBy cmp sub) :
+    ∃ l', LsdList.sort l cmp = some l' ∧ sub.Sublist (contents l') := by
+  obtain ⟨l', e, _, hc, _⟩ := sort_valid h cmp
+  exact ⟨l', e, by rw [hc]; exact sortList_stable cmp hsym htrans _ _ hsub hasc⟩
+
+/-- by the last digit: `12` stays in front of `2`, `11` in front of `1` -/
+example : sortList (fun x y => ((x % 10 : Nat) : Int) - ((y % 10 : Nat) : Int)) [12, 11, 2, 1, 3] = [11, 1, 12, 2, 3] := by decide
+
+/-- descending; then an inconsistent comparison ("everything is smaller than everything"): still a permutation, still valid -/
+example : (LsdList.sort exList (fun x y => (y : Int) - x)).map (fun l => (contents l, (absOf l).curs, LsdList.valid l)) =
+      some ([4, 3, 2, 1], [(1, (0, false)), (0, (0, false))], true) ∧
+    (LsdList.sort exList (fun _ _ => -1)).map (fun l => (contents l, LsdList.valid l)) = some ([4, 3, 2, 1], true) := by decide +kernel
+
+/-! ### iterators -/
+
+/-- **`list_next`** returns the first of the items the iterator has still to return (`NULL` when there is none); that item
+    is no longer ahead, it is what `list_remove` would now take; the list is unchanged and no other iterator moves. -/
+theorem C10_list_next (l : LList α) (k : Nat) (h : LsdList.valid l = true) (hk : (iterOf l k).isSome) :
+    ∃ l', LsdList.next l k = some (((absOf l).ahead k).head?, l') ∧ LsdList.valid l' = true ∧ contents l' = contents l ∧
+      (absOf l').ahead k = ((absOf l).ahead k).tail ∧ (absOf l').removable k = ((absOf l).ahead k).head? ∧
+      ∀ k', k' ≠ k → (absOf l').curOf k' = (absOf l).curOf k' :=
+  next_valid h k hk
+
+/-- **An iterator left alone returns exactly what is ahead of it, each item once, in order, then `NULL`.** -/
+theorem C10_list_iterate (l : LList α) (k n : Nat) (h : LsdList.valid l = true) (hk : (iterOf l k).isSome) :
+    ∃ l', LsdList.run l (List.replicate n (Op.next k)) = some ((List.range n).map (fun i => Res.item ((absOf l).ahead k)[i]?), l') ∧
+      contents l' = contents l ∧ (absOf l').ahead k = ((absOf l).ahead k).drop n := by
+  obtain ⟨ns, hr⟩ := valid_repA h
+  have hk' : ((absOf l).curOf k).isSome := by rw [absOf_curOf hr]; exact hk
+  obtain ⟨a', e, hi, ha, _⟩ := Abs.run_next_drain k n (absOf l) hk'
+  obtain ⟨l', ns', e', hr'⟩ := (run_refines _ l ns _ hr).2 _ a' e
+  exact ⟨l', e', by rw [hr'.contents, hi]; rfl, by rw [hr'.abs, ha]⟩
+
+example : (LsdList.run exList (List.replicate 4 (Op.next 1))).map (·.1) =
+    some [.item (some 2), .item (some 3), .item (some 4), .item none] := by decide +kernel
+
+/-- **`list_find (i, f, key)`** returns the first item the callback accepts among those the iterator has still to return
+    (`NULL` when there is none); afterwards the iterator has still to return what follows that item (nothing, after `NULL`). -/
+theorem C10_list_find (l : LList α) (k : Nat) (f : α → Bool) (h : LsdList.valid l = true) (hk : (iterOf l k).isSome) :
+    ∃ l', LsdList.find f (l.cells.size + 2) l k = some (((absOf l).ahead k).find? f, l') ∧ LsdList.valid l' = true ∧
+      contents l' = contents l ∧ (absOf l').ahead k = (((absOf l).ahead k).dropWhile (fun x => !f x)).tail :=
+  find_valid h k f hk
+
+example : (LsdList.find (fun x => x == 3) (exList.cells.size + 2) exList 1).map (fun r => (r.1, (absOf r.2).ahead 1)) =
+    some (some 3, [4]) := by decide +kernel
+
+/-- **Insertion, seen from every iterator.**  Every insertion of `list.c` is `list_node_create` at some gap `f` of the list:
+    `list_append` / `list_enqueue` at the last gap, `list_prepend` / `list_push` at gap 0, `list_insert (i, x)` at the gap of
+    `i`'s own cursor.  For an iterator with cursor `(j, g)`: if `f ≤ j` the new item is **behind** it — it will not be
+    returned, and what the iterator has still to return is unchanged; if `f > j` it is **ahead** — it will be returned, at
+    its place among the items still to return.  In particular: a prepended item is never returned by an existing iterator;
+    an iterator never returns what it inserts itself; an appended item is returned by every iterator except those whose
+    cursor is at the last gap (an iterator that has returned `NULL`, or was created on the empty list: `f = j`).
+    What `list_remove` would take is never changed by an insertion. -/
+theorem C10_list_insertion_seen_by_iterators (a : Abs α) (f : Nat) (x : α) (k j : Nat) (g : Bool)
+    (hc : a.curOf k = some (j, g)) (hf : f ≤ a.items.length) :
+    (a.createAt f x).items = a.items.insertIdx f x ∧
+    (a.createAt f x).ahead k = (if f ≤ j then a.ahead k else (a.ahead k).insertIdx (f - (j + g.toNat)) x) ∧
+    (a.createAt f x).removable k = a.removable k :=
+  ⟨rfl, Abs.ahead_createAt a f x k j g hc hf, Abs.removable_createAt a f x k⟩
+
+/-- … and the node-level model does exactly that: `list_insert` through the iterator `k` inserts at `k`'s gap, in front of the
+    item `k` returned last (when it remembers one), and the state stays valid. -/
+theorem C10_list_insert (l : LList α) (k : Nat) (x : α) (h : LsdList.valid l = true) (hk : (iterOf l k).isSome) :
+    ∃ l' c, (absOf l).curOf k = some c ∧ LsdList.insert l k x = some l' ∧ LsdList.valid l' = true ∧
+      absOf l' = (absOf l).createAt c.1 x ∧ contents l' = (contents l).insertIdx c.1 x := by
+  obtain ⟨l', c, hc, e, hv, ha, _⟩ := insert_valid h k x hk
+  refine ⟨l', c, hc, e, hv, ha, ?_⟩
+  have : contents l' = (absOf l').items := rfl
+  rw [this, ha]; rfl
+
+example : (absOf exList).curOf 0 = some (1, true) ∧
+    (LsdList.insert exList 0 9).map (fun l => (contents l, (absOf l).ahead 0, (absOf l).ahead 1)) =
+      some ([1, 9, 2, 3, 4], [3, 4], [9, 2, 3, 4]) ∧
+    (LsdList.append exList 9).map (fun l => ((absOf l).ahead 0, (absOf l).ahead 1)) = some ([3, 4, 9], [2, 3, 4, 9]) ∧
+    (LsdList.prepend exList 9).map (fun l => ((absOf l).ahead 0, (absOf l).ahead 1)) = some ([3, 4], [2, 3, 4]) := by decide +kernel
+
+/-- **Removal, seen from every iterator.**  Every removal of `list.c` is `list_node_destroy` of the item at some index `f`:
+    `list_pop` / `list_dequeue` at 0, `list_remove` / `list_delete` through an iterator at that iterator's remembered item,
+    `list_delete_all` at every matching item in turn.  For an iterator whose next item has index `p = j + g`: an item behind
+    it (`f < p`) leaves what it has still to return unchanged; an item ahead of it (`f ≥ p`) disappears from there — **an
+    item removed before it is reached is never returned**. -/
+theorem C10_list_removal_seen_by_iterators (a : Abs α) (f : Nat) (k j : Nat) (g : Bool) (hc : a.curOf k = some (j, g)) :
+    (a.destroyAt f).items = a.items.eraseIdx f ∧
+    (a.destroyAt f).ahead k = (if f < j + g.toNat then a.ahead k else (a.ahead k).eraseIdx (f - (j + g.toNat))) :=
+  ⟨rfl, Abs.ahead_destroyAt a f k j g hc⟩
+
+/-- **`list_remove`** through the iterator `k` removes and returns `removable k` (`NULL`, and nothing happens, when there is
+    none); the state stays valid. -/
+theorem C10_list_remove (l : LList α) (k : Nat) (h : LsdList.valid l = true) (hk : (iterOf l k).isSome) :
+    ∃ l' c, (absOf l).curOf k = some c ∧ LsdList.remove l k = some ((absOf l).removable k, l') ∧ LsdList.valid l' = true ∧
+      absOf l' = (if c.2 then (absOf l).destroyAt c.1 else absOf l) :=
+  remove_valid h k hk
+
+/-- **What `list_remove` will take, after a removal elsewhere.**  An iterator that remembers the item it returned last
+    (cursor `(j, true)`) forgets it when that item is removed (`f = j`) — *and also when the item after it is removed*
+    (`f = j + 1`: `list_node_destroy` sets `i->prev = pp` for every iterator whose `pos` is the removed node); any other
+    removal leaves it as it is. -/
+theorem C10_list_removable_after_removal (a : Abs α) (f : Nat) (k j : Nat) (hc : a.curOf k = some (j, true)) :
+    (a.destroyAt f).removable k = if f = j ∨ f = j + 1 then none else a.removable k :=
+  Abs.removable_destroyAt a f k j hc
+
+/-- **No call moves an item from behind an iterator to ahead of it** — so no item is returned twice: `list_next` takes the
+    returned item out of `ahead` (`C10_list_next`), and after any other call that does not restart the iterator
+    (`list_iterator_reset` of it, `list_sort`) everything it has still to return was already ahead of it, or is the item this
+    very call inserted. -/
+theorem C10_list_never_back (l : LList α) (op : Op α) (k : Nat) (r : LsdList.Res α) (l' : LList α) (h : LsdList.valid l = true)
+    (hk : (iterOf l k).isSome) (hr : op.restarts k = false) (e : op.apply l = some (r, l')) :
+    (iterOf l' k).isSome ∧ LsdList.valid l' = true ∧ ∀ y ∈ (absOf l').ahead k, y ∈ (absOf l).ahead k ∨ y ∈ op.inserted := by
+  obtain ⟨ns, hr0⟩ := valid_repA h
+  obtain ⟨h1, h2⟩ := apply_refines hr0 op
+  cases ha : (absOf l).apply op with
+  | none => rw [h1 ha] at e; simp at e
+  | some x =>
+    obtain ⟨r0, a'⟩ := x
+    obtain ⟨l1, ns1, e1, hr1⟩ := h2 r0 a' ha
+    rw [e] at e1
+    simp only [Option.some.injEq, Prod.mk.injEq] at e1
+    obtain ⟨rfl, rfl⟩ := e1
+    obtain ⟨h3, h4⟩ := Abs.apply_ahead (absOf l) hr0.wf op k r a' ha (by rw [absOf_curOf hr0]; exact hk) hr
+    have hr1' : RepA l' ns1 (absOf l') := hr1.rep.repA
+    rw [← hr1.abs] at h3 h4
+    exact ⟨by rw [← absOf_curOf hr1']; exact h3, hr1.valid', h4⟩
+
+/-- **`list.h` promises more than `list.c` does (1).**  "`list_remove`: removes from the list the last item returned via list
+    iterator": iterator 0 has returned `1`; another iterator removes `2`, the item *after* it; `1` is still in the list and is
+    still the last item iterator 0 returned — but `list_remove (0)` now returns `NULL` and removes nothing
+    (and `list_insert (0, x)` would put `x` *after* `1`, not before it). -/
+theorem C10_list_remove_forgets_counterexample :
+    (LsdList.run (LsdList.create { cells := #[], free := [] } false)
+      [.append 1, .append 2, .append 3, .itCreate 0, .next 0, .itCreate 1, .next 1, .next 1, .remove 1, .remove 0, .insert 0 9]).map
+        (fun x => (x.1, contents x.2)) =
+    some ([.item (some 1), .item (some 2), .item (some 3), .unit, .item (some 1), .unit, .item (some 1), .item (some 2),
+           .item (some 2), .item none, .item (some 9)], [1, 9, 3]) := by decide +kernel
+
+/-- **`list.h` promises more than `list.c` does (2).**  An iterator created on the empty list (or one that has returned
+    `NULL`) stands at the last gap; items appended afterwards go *behind* it: `list_next` keeps returning `NULL` although the
+    list is not empty and none of its items was ever returned. -/
+theorem C10_list_iterator_on_empty_list_counterexample :
+    (LsdList.run (LsdList.create { cells := #[], free := [] } false) [.itCreate 0, .append 1, .append 2, .next 0, .itReset 0, .next 0]).map
+        (fun x => (x.1, contents x.2)) =
+    some ([.unit, .item (some 1), .item (some 2), .item none, .unit, .item (some 1)], [1, 2]) := by decide +kernel
+
+end list
 
 end Pm.Props.C10
